@@ -74,6 +74,7 @@ type World struct {
 	clients map[string]*Client
 	https   map[string]*httpReq
 	marks   map[string][]Rec  // unfilled frame marks per client
+	evIDs   map[interface{}]int // resource event / subscription pointer -> id
 	cidSym  map[string]string // real cid -> symbolic id
 	symCID  map[string]string
 	pendSym string // symbolic id to bind to the next conn.* subscription
@@ -127,6 +128,7 @@ func NewWorld(t *testing.T, cfg ScenarioCfg) *World {
 		https:   map[string]*httpReq{},
 		cidSym:  map[string]string{},
 		marks:   map[string][]Rec{},
+		evIDs:   map[interface{}]int{},
 		symCID:  map[string]string{},
 	}
 	w.mq = newMockMQ(w)
@@ -224,6 +226,19 @@ func (w *World) note(kind string, kv ...interface{}) {
 	if cid, ok := r["cid"].(string); ok {
 		r["c"] = w.symOf(cid)
 		delete(r, "cid")
+	}
+	for _, key := range [...]string{"evp", "sp"} {
+		if p, ok := r[key]; ok {
+			// identity of a resource event / subscription object: small
+			// integers in order of first appearance. The map keeps the
+			// objects reachable, so an address is never reused.
+			id, ok := w.evIDs[p]
+			if !ok {
+				id = len(w.evIDs) + 1
+				w.evIDs[p] = id
+			}
+			r[key] = id
+		}
 	}
 	if rid, ok := r["rid"].(string); ok {
 		r["rid"] = w.symText(rid)
